@@ -33,6 +33,7 @@ def load_model_from_file(path, register=False):
         If the model cannot be imported
     """
     path = pathlib.Path(path)
+    path_orig = list(sys.path)
     try:
         # insert the plugin directory to sys.path so we can import it
         sys.path.insert(-1, str(path.parent))
@@ -42,7 +43,7 @@ def load_model_from_file(path, register=False):
         raise ModelImportError(f"Could not import '{path}'!") from exc
     finally:
         # undo our path insertion
-        sys.path.remove(str(path.parent))
+        sys.path[:] = path_orig
         sys.dont_write_bytecode = False
 
     mod = NaniteFitModel(module)
